@@ -226,7 +226,7 @@ def concretize_value(m, v):
     if isinstance(v, ABytes):
         n = concretize_value(m, v.ln)
         off = concretize_value(m, v.off)
-        n = min(int(n), 4096)
+        n = min(int(n), 64)
         return {"__bytes__": [m.eval(z3.Select(v.arr, z3.IntVal(off + i)), model_completion=True).as_long() % 256
                               for i in range(n)]}
     if isinstance(v, SStr):
